@@ -162,7 +162,10 @@ class Runner:
             np.random.default_rng(step["seed"]).uniform(size=step["k"])
         else:
             raise ValueError(kind)
-        self._invariant()
+        # no re-execution right after an unseeded API call: whatever that call left behind in a model object must be
+        # what the NEXT step meets (re-executing remembered calls first would reset such state and hide its effect)
+        if kind != "unseeded":
+            self._invariant()
 
     def _seeded(self, step):
         key = canon(step)
@@ -185,11 +188,15 @@ class Runner:
                 self.first_key = key
 
     def _invariant(self):
-        """Re-execute one remembered seeded call (rotating through them) after every step."""
-        if self.model:
-            keys = sorted(self.model)
-            self.inv_count = getattr(self, "inv_count", 0) + 1
-            key = keys[self.inv_count % len(keys)]
+        """After every step re-execute the remembered seeded calls (all of them, up to 12, starting at a rotating
+        position): any of them must still give its first result, whatever ran in between - including the other
+        remembered calls on the same model object."""
+        if not self.model:
+            return
+        keys = sorted(self.model)
+        self.inv_count = getattr(self, "inv_count", 0) + 1
+        start = self.inv_count % len(keys)
+        for key in (keys[start:] + keys[:start])[:12]:
             step = json.loads(key)
             res = must(lib(self.call, step, step["seed"]), "invariant re-execution")
             if self.perturb_count > self.seen_at[key]:
@@ -295,8 +302,27 @@ def machine_factory(on_finish, on_violation):
     return Machine
 
 
+def pair_histories(seed):
+    """Every ordered pair of intervention settings on every LGANM fixture, with and without an observational call
+    in between, each call seeded (the invariant re-executes all remembered calls after every step)."""
+    out = []
+    for fx in range(4):
+        for i in range(11):
+            for j in range(11):
+                if i == j:
+                    continue
+                for mid in (True, False):
+                    h = [{"kind": "seeded", "op": "lganm_sample", "fx": fx, "iv": i, "n": 3, "seed": (seed + i) % 5}]
+                    if mid:
+                        h.append({"kind": "unseeded", "op": "lganm_sample", "fx": fx, "iv": 0, "n": 2, "twice": False})
+                    h.append({"kind": "seeded", "op": "lganm_sample", "fx": fx, "iv": j, "n": 3, "seed": (seed + j) % 3})
+                    h.append({"kind": "np_draw", "k": 2})
+                    out.append(h)
+    return out
+
+
 def plan(tier, seed):
-    jobs = []
+    jobs = [{"sub": "pair_histories", "seed": seed, "shard": k, "nshards": 8, "cost": 5} for k in range(8)]
     n = scaled(3200 if tier == "quick" else 32000)
     shards = 16 if tier == "quick" else 64
     for k in range(shards):
@@ -306,6 +332,19 @@ def plan(tier, seed):
 
 def run(job):
     acc = Acc(job["sub"])
+    if job["sub"] == "pair_histories":
+        for n, h in enumerate(pair_histories(job["seed"])):
+            if n % job["nshards"] != job["shard"]:
+                continue
+            case = {"sub": "pair_histories", "history": h}
+            try:
+                lab = check(case)
+                acc.record(case, lab + ["pair_history"], True, by_construction=True, sample=(n % 301 == 0))
+            except Violation as v:
+                acc.record(case, [], False)
+                acc.violation(case, v)
+        acc.exhaustive = True
+        return acc
     run_machine(acc, machine_factory, job["n"], job["steps"], job_seed(job))
     acc.exhaustive = False
     return acc
